@@ -52,17 +52,7 @@ def run(ctx, rep):
                         bad.append(a)
     rep.check(not bad, "S3", "C03|S3|no-user-errors", None, "no grammar action may fail with a User error (they would be dropped by from_parse_error): %r" % (bad,), sample={"actions scanned": len(acts)})
     rep.floor("S3", "grammar action bodies scanned", len(acts), 150)
-    # ---- S4 kind kept by from_error_recovery : C20 F3 shape
-    import c20
-    FER = c20.FER
-    clos = facts.closures_of(FER)
-    ok = False
-    if len(clos) == 1:
-        from closures import run_closure
-        d = struct_val(facts, DIAG, "d")
-        cp, _ = run_closure(facts, clos[0], {"msg": sym_ref("msg")}, [d])
-        ok = len(cp) == 1 and isinstance(cp[0].ret, AdtVal) and lab(cp[0].ret.fields[0].val) == "d.kind" and lab(cp[0].ret.fields[1].val) == "d.range"
-    rep.check(ok, "S4", "C03|S4|recovery-keeps-kind", cfg.where(facts.fn(FER)), "from_error_recovery must keep the kind and range of the converted diagnostic")
+    recovery_keeps_range(ctx, rep, "C03")
     # ---- S5 add_content
     import c12
     P = c12.P
@@ -93,6 +83,22 @@ def run(ctx, rep):
     append_only_rule(ctx, rep, "C03")
     rep.assumptions += ["TB-2 lalrpop: generated tables == grammar; recovery reports the errors it swallowed", "TB-1 rustc MIR", "TB-4 tabulator", "A11 is bounded: equality of the two languages up to N tokens"]
     rep.not_decided.append("language equality beyond the token bound of A11")
+
+
+def recovery_keeps_range(ctx, rep, prop):
+    """S4 (shared with C11): from_error_recovery only rewrites message / context of the converted diagnostic"""
+    facts = ctx.mir
+    # ---- S4 kind kept by from_error_recovery : C20 F3 shape
+    import c20
+    FER = c20.FER
+    clos = facts.closures_of(FER)
+    ok = False
+    if len(clos) == 1:
+        from closures import run_closure
+        d = struct_val(facts, DIAG, "d")
+        cp, _ = run_closure(facts, clos[0], {"msg": sym_ref("msg")}, [d])
+        ok = len(cp) == 1 and isinstance(cp[0].ret, AdtVal) and lab(cp[0].ret.fields[0].val) == "d.kind" and lab(cp[0].ret.fields[1].val) == "d.range"
+    rep.check(ok, "S4", "%s|S4|recovery-keeps-kind" % prop, cfg.where(facts.fn(FER)), "from_error_recovery must keep the kind and range of the converted diagnostic")
 
 
 def append_only_rule(ctx, rep, prop):
